@@ -27,6 +27,7 @@ func checkC15(c *Ctx) {
 	R.Assumptions = []string{"checkCircularDepedencyDFS is a correct cycle test (7 baseline cases)", "path/filepath.Join semantics"}
 	u := c.Core()
 	u.buildSSA()
+	ruleExternalRefsOwner(c, u, "C15.refsowner")
 
 	f := u.ssaFunc("pkg/exec", "evalImportStmt")
 	if f == nil {
